@@ -188,15 +188,81 @@ def mutants(only, tier: str, keep_going=True) -> int:
     return 1 if bad else 0
 
 
+def refactors(only, tier: str) -> int:
+    """Behaviour-preserving changes under /verif/refactors/<id>/: every check
+    named in meta.json ("checks") must stay quiet (exit 0, no VIOLATION) on
+    the changed tree - the false-alarm side of the sensitivity test."""
+    root = os.path.join(core.VERIF, "refactors")
+    ids = sorted(d for d in os.listdir(root)
+                 if os.path.exists(os.path.join(root, d, "patch.diff")))
+    if only:
+        ids = [i for i in ids if i in only]
+    bad = 0
+    rows = []
+    for rid in ids:
+        meta = json.load(open(os.path.join(root, rid, "meta.json")))
+        tmp = tempfile.mkdtemp(prefix="verif-refactor-", dir="/tmp")
+        scratch = os.path.join(tmp, "repo")
+        try:
+            subprocess.run(
+                ["rsync", "-a", "--exclude", ".git", "--exclude",
+                 "__pycache__", core.REPO + "/", scratch + "/"], check=True)
+            p = subprocess.run(
+                ["patch", "-p1", "-s", "-i",
+                 os.path.join(root, rid, "patch.diff")],
+                cwd=scratch, capture_output=True, text=True)
+            if p.returncode != 0:
+                rows.append((rid, "-", "patch does not apply", 0))
+                bad += 1
+                continue
+            for chk in meta["checks"]:
+                t0 = time.time()
+                env = dict(os.environ, VERIF_REPO=scratch,
+                           VERIF_EVIDENCE_DIR=os.path.join(tmp, "evidence"),
+                           VERIF_REPLAY_DIR=os.path.join(tmp, "replays"))
+                q = subprocess.run(
+                    [os.path.join(core.VERIF, "check"), chk, "--tier", tier],
+                    cwd=core.VERIF, env=env, capture_output=True, text=True,
+                    timeout=7200)
+                quiet = q.returncode == 0 and "VIOLATION" not in q.stdout
+                first = next((ln for ln in q.stdout.splitlines()
+                              if ln.startswith("#   ")), "")
+                rows.append((rid, chk, "QUIET" if quiet else
+                             f"ALARM (exit {q.returncode})",
+                             round(time.time() - t0), first[:200]))
+                if not quiet:
+                    bad += 1
+        finally:
+            shutil.rmtree(tmp, ignore_errors=True)
+    resf = os.path.join(core.VERIF, "refactor_results.json")
+    try:
+        table = json.load(open(resf))
+    except Exception:
+        table = {}
+    for r in rows:
+        if len(r) >= 5:
+            table.setdefault(r[0], {})[r[1]] = {
+                "result": r[2], "tier": tier, "seconds": r[3],
+                "first_line": r[4]}
+    with open(resf, "w") as f:
+        json.dump(table, f, indent=1, sort_keys=True)
+    for r in rows:
+        print("# refactor", *r)
+    print(f"# refactors: {len(rows)} (refactor, check) pairs, {bad} alarms")
+    return 1 if bad else 0
+
+
 def main(argv):
     ap = argparse.ArgumentParser(prog="check selftest")
-    ap.add_argument("what", choices=["determinism", "mutants"])
+    ap.add_argument("what", choices=["determinism", "mutants", "refactors"])
     ap.add_argument("--n", type=int, default=12)
     ap.add_argument("--only", default="")
     ap.add_argument("--tier", default="quick")
     a = ap.parse_args(argv)
     if a.what == "determinism":
         sys.exit(determinism(a.n))
+    if a.what == "refactors":
+        sys.exit(refactors([x for x in a.only.split(",") if x], a.tier))
     sys.exit(mutants([x for x in a.only.split(",") if x], a.tier))
 
 
